@@ -4,6 +4,7 @@
 #include "ephemeralnet/protocol/Manifest.hpp"
 #include <cstdio>
 #include <cstring>
+#include <string>
 #include <random>
 #include <typeinfo>
 using namespace ephemeralnet;
@@ -21,6 +22,11 @@ static int probe(const std::string& uri, const char* what) {
     return 0;
 }
 int main(int argc, char** argv) {
+    if (argc > 2 && std::string(argv[1]) == "text") {       // "text <hex>": decode "eph://" + the counterexample text of the base64 group
+        const std::string h = argv[2]; std::string t;
+        for (std::size_t i = 0; i + 1 < h.size(); i += 2) t.push_back(static_cast<char>(std::stoi(h.substr(i, 2), nullptr, 16)));
+        return probe("eph://" + t, "counterexample text") ? 1 : 0;
+    }
     const unsigned long long seed = argc > 1 ? std::strtoull(argv[1], nullptr, 0) : 0;
     int bad = 0;
     const std::uint64_t expiries[] = {0, 1, 2000000000ull, 9223372036ull, 9223372037ull, 1ull << 40, 1ull << 62, (1ull << 63) - 1, 1ull << 63, ~0ull, ~0ull - 5};
